@@ -3419,3 +3419,17 @@ impl Manager {
         Ok(())
     }
 }
+
+//------------ verification hooks (C10: fetching a filter) --------------------
+
+#[cfg(feature = "verif-hooks")]
+impl Manager {
+    /// The compiled script of the latest load - the one mutex-protected
+    /// value every component started from now on is handed a clone of, and
+    /// from which each unit fetches its filter function by name when it
+    /// starts. Lets a harness be "something else that holds the mutex at
+    /// that moment". Add-only; changes nothing.
+    pub fn verif_roto_compiled(&self) -> Option<Arc<CompiledRoto>> {
+        self.roto_compiled.clone()
+    }
+}
